@@ -53,7 +53,7 @@ def run(tier, seed, only=None):
             nominal["wing_def_mesh[%s]" % ",".join(map(str, idx))] = float(mv[idx])
         nominal.update({"circulations[%d]" % i: -0.7 - 0.1 * i for i in range(npan)})
         run_obligations(rep, "ground effect vs method of images [%s]" % cn, obs, timeout, replay=rp, levels=(1, 2), relate=[],
-                        family=lambda ob: "ground effect: " + ob.meta["family"], fixed={"alpha": 4.0, "v": 10.0, "rho": 1.1, "height_agl": 3.0}, nominal=nominal)
+                        family=lambda ob: "ground effect: " + ob.meta["family"], fixed={"alpha": (4.0, -4.0), "v": 10.0, "rho": 1.1, "height_agl": 3.0}, nominal=nominal)
     rep.stubs.add("vortex kernels -> uninterpreted functions on both sides")
     rep.bounds = {"cases": [c[0] for c in cfgs]}
     rep.assumptions = ["real arithmetic", "zero sideslip", "root on the symmetry plane", "not decided: convergence to free air as the height grows (a limit)",
